@@ -121,8 +121,8 @@ pub fn block2_input(mt: &str, k: usize, len: usize) -> String {
     let prio = ["N", "U", "S"][k % 3];
     match len {
         17 => format!("I{mt}{dest}{prio}"),
-        18 => format!("I{mt}{dest}{prio}{}", 1 + k % 3),
-        _ => format!("I{mt}{dest}{prio}{}{:03}", 1 + k % 3, 3 + k % 20),
+        18 => format!("I{mt}{dest}{prio}{}", 1 + (k / 3) % 3),
+        _ => format!("I{mt}{dest}{prio}{}{:03}", 1 + (k / 3) % 3, 3 + k % 20),
     }
 }
 pub fn block2_output(mt: &str, k: usize, len: usize) -> String {
